@@ -420,6 +420,65 @@ EXP = ("np.exp", "numpy.exp", "math.exp")
 IDENT = ("np.asarray", "np.array", "float", "np.float64", "pd.Series", "np.asfarray", "np.atleast_1d")
 
 
+# Private single-expression helpers of the analysed program (set by frontend.Program when it has indexed the package): a call
+# `self._h(a)` / `_h(a)` that no rule-specific hook understands is replaced by the helper's returned expression with the
+# arguments substituted, provided the name is unique in the program ("extract expression into a helper" undone).
+HELPERS = {"methods": {}, "functions": {}}
+
+
+def register_helpers(prog):
+    meth, func = {}, {}
+    for k, fi in prog.functions.items():
+        n = fi.node
+        if not isinstance(n, ast.FunctionDef) or not fi.name.startswith("_") or fi.name.startswith("__") or fi.parent is not None:
+            continue
+        body = [s_ for s_ in n.body if not (isinstance(s_, ast.Expr) and isinstance(s_.value, ast.Constant))]
+        if len(body) != 1 or not isinstance(body[0], ast.Return) or body[0].value is None:
+            continue
+        a = n.args
+        if a.vararg or a.kwarg or a.posonlyargs:
+            continue
+        (meth if fi.cls is not None else func).setdefault(fi.name, []).append(fi)
+    HELPERS["methods"] = {k: v[0] for k, v in meth.items() if len(v) == 1}
+    HELPERS["functions"] = {k: v[0] for k, v in func.items() if len(v) == 1}
+
+
+def expand_private_helper(call):
+    """the returned expression of a registered helper with the call's arguments substituted, or None"""
+    f = call.func
+    fi = None
+    if isinstance(f, ast.Attribute) and isinstance(f.value, ast.Name) and f.value.id == "self":
+        fi = HELPERS["methods"].get(f.attr)
+    elif isinstance(f, ast.Name):
+        fi = HELPERS["functions"].get(f.id)
+    if fi is None:
+        return None
+    n = fi.node
+    decos = {getattr(d, "id", getattr(d, "attr", "")) for d in n.decorator_list}
+    names = [x.arg for x in n.args.args]
+    if fi.cls is not None and names and names[0] in ("self", "cls") and "staticmethod" not in decos:
+        names = names[1:]
+    if len(call.args) > len(names) or any(isinstance(x, ast.Starred) for x in call.args) or any(k.arg is None for k in call.keywords):
+        return None
+    binding = dict(zip(names, call.args))
+    for k in call.keywords:
+        if k.arg not in names and k.arg not in [x.arg for x in n.args.kwonlyargs]:
+            return None
+        binding[k.arg] = k.value
+    defaults = dict(zip(names[len(names) - len(n.args.defaults):], n.args.defaults))
+    for x, d in zip(n.args.kwonlyargs, n.args.kw_defaults):
+        if d is not None:
+            defaults[x.arg] = d
+    for nm in names + [x.arg for x in n.args.kwonlyargs]:
+        if nm not in binding:
+            if nm not in defaults:
+                return None
+            binding[nm] = defaults[nm]
+    from .astutil import subst_names
+    ret = [s_ for s_ in n.body if isinstance(s_, ast.Return)][0].value
+    return subst_names(ret, binding)
+
+
 class Translator:
     """AST expression -> RF.
 
@@ -537,6 +596,13 @@ class Translator:
                 if sg is None:
                     raise NFUnsupported("sign() of unknown sign")
                 return RF.const(sg)
+            ex = expand_private_helper(e)
+            if ex is not None and self._depth < 40:
+                self._depth += 1
+                try:
+                    return self.tr(ex)
+                finally:
+                    self._depth -= 1
             raise NFUnsupported("call %s" % (fn or ast.dump(e.func)[:40]))
         raise NFUnsupported("expression %s" % type(e).__name__)
 
